@@ -11,7 +11,8 @@ Inductive pdefault :=
 | DStr (s : string)
 | DInt (z : Z)
 | DBool (b : bool)
-| DList (l : list string).
+| DList (l : list string)
+| DOther (ty : string) (repr : string).   (* any other type (float, tuple, ...): type name and repr *)
 
 Record param := mkParam { p_name : string; p_default : pdefault }.
 
@@ -41,7 +42,9 @@ Record cli := mkCli {
   o_inverse : list (string * string);
   o_positional : list string;
   o_kwargs : list (string * aval);
-  o_binds : bool }.
+  o_binds : bool;
+  o_kind_names : list string;   (* Argument.kind.__name__, in [o_args] order *)
+  o_takes : list bool }.        (* Argument.takes_value, in [o_args] order *)
 
 (** [inspect.Signature.empty] (a class object) can end up as an Argument's
     default (iterable parameter without default).  [aval] has no constructor
@@ -57,6 +60,7 @@ Definition to_aval (d : pdefault) : aval :=
   | DInt z => AInt z
   | DBool b => ABool b
   | DList l => AList l
+  | DOther ty r => AStr ("<" ++ ty ++ " " ++ r ++ ">")   (* reserved spelling, as for the empty sentinel *)
   end.
 
 (** Polymorphic insertion-ordered association lists (Python dicts). *)
@@ -101,4 +105,6 @@ Definition cli_eqb (a b : cli) : bool :=
   list_eqb ss_eqb (o_inverse a) (o_inverse b) &&
   list_eqb String.eqb (o_positional a) (o_positional b) &&
   list_eqb sv_eqb (o_kwargs a) (o_kwargs b) &&
-  Bool.eqb (o_binds a) (o_binds b).
+  Bool.eqb (o_binds a) (o_binds b) &&
+  list_eqb String.eqb (o_kind_names a) (o_kind_names b) &&
+  list_eqb Bool.eqb (o_takes a) (o_takes b).
